@@ -44,6 +44,41 @@ fn main() {
     // second inclusion of the two parsers as top-level modules (their pub(crate) API becomes callable)
     mods.push_str(&format!("#[path = \"{src}/fmt/parsing.rs\"]\n#[allow(dead_code)]\npub(crate) mod fmt_parsing_top;\n"));
 
+    // third inclusion of the literal parser: the unmodified source text with a child module appended
+    // (src/parsing_open_tail.rs.in) through which its private grammar functions and combinators are callable
+    {
+        let out = env::var("OUT_DIR").unwrap();
+        let psrc = fs::read_to_string(format!("{src}/fmt/parsing.rs")).expect("read fmt/parsing.rs");
+        println!("cargo:rerun-if-changed={src}/fmt/parsing.rs");
+        println!("cargo:rerun-if-changed=src/parsing_open_tail.rs.in");
+        let tail = fs::read_to_string("src/parsing_open_tail.rs.in").expect("read parsing_open_tail.rs.in");
+        let has_fn = |name: &str| {
+            psrc.lines().any(|l| {
+                let t = l.trim_start();
+                let t = t.strip_prefix("pub(crate) ").unwrap_or(t);
+                t.strip_prefix("fn ").map_or(false, |r| {
+                    r.strip_prefix(name).map_or(false, |r2| r2.starts_with('(') || r2.starts_with('<'))
+                })
+            })
+        };
+        let mut open = psrc.clone();
+        for line in tail.lines() {
+            if let Some(rest) = line.strip_prefix("/*@") {
+                if let Some((name, body)) = rest.split_once("*/") {
+                    if has_fn(name) {
+                        open.push_str(body);
+                        open.push('\n');
+                    }
+                    continue;
+                }
+            }
+            open.push_str(line);
+            open.push('\n');
+        }
+        fs::write(format!("{out}/parsing_open.rs"), open).unwrap();
+        mods.push_str(&format!("#[path = \"{out}/parsing_open.rs\"]\n#[allow(dead_code)]\npub(crate) mod fmt_parsing_open;\n"));
+    }
+
     // --- derives: every create_derive!(...) invocation after the macro definition
     let mut derives = String::new();
     let marker = "create_derive!(\"";
